@@ -309,8 +309,12 @@ def _canonicalise_names(raw, unit):
     for t, names in bytype_cur.items():
         rn = bytype_ref.get(t)
         if rn and len(rn) == len(names):
-            for a, b in zip(names, rn):
-                if a != b:
+            # variables that kept their name keep it (a declaration moved up or down changes the order, not the identity); the
+            # others are matched, in order, to the reference names that disappeared
+            fresh = [a for a in names if a not in rn]
+            gone = [b for b in rn if b not in names]
+            if len(fresh) == len(gone):
+                for a, b in zip(fresh, gone):
                     ren[a] = b
     if not ren:
         return
@@ -340,6 +344,19 @@ def _canonicalise_names(raw, unit):
     raw["_renamed"] = ren
 
 
+def _canonicalise_decl_init(raw, unit):
+    """A local that the reference declares with an initialiser and the tree declares bare and assigns later (or the reverse) is
+    brought back to the reference shape (engine/alias.py): splitting or merging declaration and initialisation is invisible."""
+    if raw.get("_declinit_done"):
+        return
+    raw["_declinit_done"] = True
+    ref = _namemap().get("__decl_init__", {}).get(unit, {}).get(raw["name"])
+    if not ref:
+        return
+    import alias as _alias
+    _alias.canonicalise_decl_init(raw, ref)
+
+
 def _substitute_new_locals(raw, unit):
     """New single-definition locals (unknown to the frozen reference) are replaced by their defining expression (engine/alias.py)."""
     if raw.get("_alias_done") is not None:
@@ -356,6 +373,7 @@ class Func:
     def __init__(self, raw, unit):
         _canonicalise_names(raw, unit)
         _canonicalise_params(raw)
+        _canonicalise_decl_init(raw, unit)
         _substitute_new_locals(raw, unit)
         self.raw = raw
         self.name = raw["name"]
